@@ -44,7 +44,7 @@ func spec_nz(table [][]int, i int, k int) bool {
 }
 
 //@ func PackTable
-//@ props C05
+//@ props C05 C14
 //@ results ret, row, check
 //@ requires len(table) >= 1
 //@ requires forall i int :: 0 <= i && i < len(table) ==> len(table[i]) == len(table[0])
@@ -108,6 +108,7 @@ func spec_nz(table [][]int, i int, k int) bool {
 //@     ret[row[i2]+k] == table[i2][k] && check[row[i2]+k] == i2
 //@ loop 9: invariant forall p int :: 0 <= p && p <= maxIndex ==> check[p] == -1 ||
 //@     (0 <= check[p] && check[p] < len(table) && seen(check[p]) && spec_nz(table, check[p], p-row[check[p]]))
+//@ loop 9: order_independent by_post
 //@ loop 10: invariant len(ret) == maxIndex+1 && len(check) == maxIndex+1
 //@ loop 10: invariant forall i2, k int :: seen(i2) && 0 <= i2 && i2 < len(table) && spec_nz(table, i2, k) ==>
 //@     ret[row[i2]+k] == table[i2][k] && check[row[i2]+k] == i2
